@@ -1,11 +1,18 @@
-SPECIFICATION RSpec
+SPECIFICATION RSpecRemote
 CONSTANTS
   Conns = {"c1", "c2"}
   Mods = {"m1", "m2"}
   Used = {"debug", "comlog", "error", "off"}
+  ComMods = {"m1"}
+  Configs <- CfgOne
+  MaxDay = 1
 INVARIANT TypeOK
 INVARIANT DeadSilent
 INVARIANT ExactRouting
+INVARIANT ExactSinks
+INVARIANT ComlogNeverInMainFile
+INVARIANT ComlogOnceInComlogFile
+INVARIANT RetentionOK
 PROPERTY Isolation
 PROPERTY ResetClears
 CHECK_DEADLOCK FALSE
